@@ -13,8 +13,8 @@ ReallyIs(c) ==
             /\ (cv \in {0, 1}  => ConvexOn(c.t, c.envs[p[1]], c.envs[p[2]]))
             /\ (cv \in {0, -1} => ConcaveOn(c.t, c.envs[p[1]], c.envs[p[2]]))
 Expected(c) ==
-    IF ~Defined(c.t, c.sz) THEN [defined |-> FALSE, len |-> 0, curv |-> 9, vals |-> <<>>, really |-> TRUE]
-    ELSE [defined |-> TRUE, len |-> TLen(c.t, c.sz), curv |-> Curv(c.t, c.sz),
+    IF ~Defined(c.t, c.sz) THEN [defined |-> FALSE, len |-> 0, curv |-> 9, vals |-> <<>>, really |-> TRUE, den |-> 1]
+    ELSE [defined |-> TRUE, len |-> TLen(c.t, c.sz), curv |-> Curv(c.t, c.sz), den |-> Den(c.t),
           vals |-> [i \in DOMAIN c.envs |-> Eval(c.t, c.envs[i])], really |-> ReallyIs(c)]
 ASSUME JsonSerialize(IOEnv.OUT_FILE, [res |-> [i \in 1..Len(Cases) |-> Expected(Cases[i])]])
 
